@@ -10,7 +10,7 @@ LEVEL = 'exploration'
 RULE = ('scope-shaped programs (G7: nested functions, parameters, hoisted vars, named function expressions, catch '
         'clauses, closures, labels, property names equal to variable names, free names, all from a small colliding '
         'pool that contains the names the obfuscator generates), G1 programs without with/eval/block-level function '
-        'declarations, and wide scopes declaring 60/230/500 (thorough: 3000) names so that two-letter names past '
+        'declarations (object literals with getter/setter bodies followed by more code), and wide scopes declaring 56..500 (thorough: 3000) names with free names spelled like generated ones (a, aa, ab / _, a_, _a, __) so that two-letter names past '
         '`do`, `if`, `in` (and three-letter names) are generated; x obfuscate_globals x shadow_funcname x printer in '
         '{minify, minify+drop_semi, Unparser(rules=(obfuscate, indent))}. Oracle: base = same printer without '
         'obfuscation; both outputs are parsed by the reference front end and resolved by the reference scope '
@@ -197,6 +197,7 @@ shrink = text_shrinker(replay, 'text')
 
 
 
+WIDE_FREE = [('a', 'b', 'aa', 'ab', 'z', 'A'), ('_', 'a_', '_a', '__', 'Z', 'b_')]
 CONFIGS = [(k, og, sf) for k in ('min', 'min_ds', 'indent') for og in (False, True) for sf in (False, True)]
 
 
@@ -211,7 +212,10 @@ def plan(tier, seed):
         shards.append({'name': 'g7-%d' % k, 'kind': 'g7', 'n': n7 // 16, 'hseed': seed * 1000 + k})
         shards.append({'name': 'g1-%d' % k, 'kind': 'g1', 'n': n1 // 16, 'hseed': seed * 1000 + 100 + k})
     for n in ([60, 230, 500] if quick else [60, 230, 500, 3000]):
-        shards.append({'name': 'wide-%d' % n, 'kind': 'wide', 'size': n})
+        shards.append({'name': 'wide-%d' % n, 'kind': 'wide', 'size': n, 'free': list(WIDE_FREE[0])})
+    for n in ([56, 120] if quick else [56, 120, 300]):
+        # free names spelled with the non-letter characters of the generator's alphabet
+        shards.append({'name': 'wide_-%d' % n, 'kind': 'wide', 'size': n, 'free': list(WIDE_FREE[1])})
     shards.append({'name': 'corpus', 'kind': 'corpus'})
     return shards
 
@@ -239,7 +243,7 @@ def run_shard(shard):
         strat = st.tuples(gen_program.program_strategy(cfg=cfg, layout_levels=(1,)), st.sampled_from(CONFIGS))
         run_given(strat, lambda x: one(x[0]['text'], x[1], 'g1'), shard['n'], shard['hseed'], acc)
     elif shard['kind'] == 'wide':
-        src = gen_scope.wide_scope(shard['size'])
+        src = gen_scope.wide_scope(shard['size'], free=tuple(shard['free']))
         for rnd in range(2):  # twice: the second round runs on printer objects that were used before
             for cfg in CONFIGS:
                 one(src if rnd == 0 else src + ' var second_round;', cfg, 'wide', sample=False)
